@@ -281,3 +281,62 @@ def check_literal_reader(ctx, rid, parser_regex, token_variant, groups, key):
     if not n:
         raise AnchorLost('%s: no decimal value alternative found' % fn_key(b.path))
     return shapes
+
+
+# ---------------------------------------------------------------------------------------------
+# case-insensitive comparison of text payloads (C03 names, C16 keywords)
+COMPARE_FAMILY = [
+    r'^<types::TokenType as core::cmp::PartialEq>::eq$',
+    r'^types::<impl core::cmp::PartialEq<types::TokenType> for tokinizer::TokenInfo>::eq$',
+    r'^types::<impl core::cmp::PartialEq for tokinizer::TokenInfo>::eq$',
+    r'^types::TokenType::field_compare($|::\{closure)',
+    r'^types::TokenType::variable_compare$',
+    r'^<types::FieldType as core::cmp::PartialEq>::eq$',
+    r'^types::SmartCalcAstType::field_compare($|::\{closure)',
+]
+
+
+def _is_text_payload(e):
+    """is e (after dropping ref/deref only) the payload of a Text / Symbol value, or a captured/iterated word?"""
+    e = strip(e)
+    return e[0] == 'field' and e[1][0] == 'downcast' and e[1][2] in ('Text', 'Symbol')
+
+
+def check_case_insensitive_compares(ctx, rid, floor_total=10):
+    """In the comparison family every string equality on a Text/Symbol payload (and every comparison inside the
+    expected-word closures of field_compare) lower-cases both sides; a payload handed to any other comparison is reported."""
+    n_ok = 0
+    for rx in COMPARE_FAMILY:
+        bodies = ctx.facts.find(rx)
+        if not bodies:
+            raise AnchorLost('comparison function /%s/ not found' % rx)
+        for b in bodies:
+            ctx.fn(b)
+            in_closure = b.kind == 'closure'
+            for bid, t in b.calls():
+                c = t.get('callee')
+                if not c:
+                    continue
+                path = c['path']
+                args = [b.expr(a) for a in t['args']]
+                direct = [a for a in args if _is_text_payload(a)]
+                is_eq = bool(re.search(r'PartialEq.*::(eq|ne)$', path))
+                str_typed = any(re.search(r'String|str', (a.get('copy') or a.get('move') or {}).get('ty', '')) for a in t['args'])
+                if direct and not re.search(r'::to_lowercase$|::clone$|::to_string$|Deref>::deref$|::to_owned$|fmt::|::as_str$|Option::<.*>::(as_ref|map_or|map|is_some|is_none|as_deref)$', path):
+                    ctx.finding(rid, '%s/raw-text-compare/%s' % (fn_key(b.path), path.rsplit('::', 1)[-1]),
+                                '%s hands a text payload to %s without lower-casing it: the comparison is not case-insensitive the way keys are built (to_lowercase)' % (fn_key(b.path), path), site=t['loc'])
+                    continue
+                if is_eq and str_typed:
+                    sl = [strip(a, transparent=False) for a in args]
+                    lows = [x[0] == 'call' and x[1].endswith('::to_lowercase') for x in sl]
+                    textual = in_closure or any(_is_text_payload(y) for a in args for y in walk(a))
+                    if not textual:
+                        continue
+                    if all(lows):
+                        n_ok += 1
+                        ctx.ok(rid, '%s: to_lowercase(..) == to_lowercase(..)' % fn_key(b.path), 'shape', site=t['loc'], sample=n_ok < 3)
+                    else:
+                        ctx.finding(rid, '%s/one-sided-lowercase' % fn_key(b.path), '%s compares %s with %s: not both sides are lower-cased' % (fn_key(b.path), render(args[0])[:60], render(args[1])[:60]), site=t['loc'])
+    if n_ok < floor_total:
+        ctx.finding(rid, 'case-insensitive-compares/count', 'anchor lost: only %d lower-cased text comparisons found in the comparison family, %d were confirmed by hand (an arm stopped comparing through to_lowercase)' % (n_ok, floor_total))
+    return n_ok
